@@ -124,3 +124,19 @@ def consistency_errors(vertices, edges, cells, limit=5):
 def iface_key(be):
     """unordered pair of cells an interface separates (internal interfaces)"""
     return tuple(sorted(be.own_cells))
+
+
+# ---------------------------------------------------------------- mesh -> Coq literals
+def mesh_literals(vertices, cells):
+    """Coq definitions describing the mesh bookkeeping the decomposition reads"""
+    import common as C
+    juncs = [k for k, v in vertices.items() if len(v.ownEdges) > 2]
+    nc = "[" + "; ".join(f"({C.zlit(k)}, {len(v.ownCells)})" for k, v in vertices.items()) + "]"
+    oc = "[" + "; ".join(f"({C.zlit(k)}, {C.zlist(v.ownCells)})" for k, v in vertices.items()) + "]"
+    oe = "[" + "; ".join(f"({C.zlit(k)}, {C.zlist(v.ownEdges)})" for k, v in vertices.items()) + "]"
+    cl = "[" + "; ".join(f"({C.zlit(k)}, {C.zlist([w.id for w in c.vertices])})" for k, c in cells.items()) + "]"
+    return {"juncs": C.zlist(juncs), "ncells": nc, "own_cells": oc, "own_edges": oe, "cells": cl}
+
+
+MESH_LET = ("let junc := fun v => memZ v {juncs} in let ncells := assoc_def 0 {ncells} in "
+            "let ownc := assoc_def [] {own_cells} in let owne := assoc_def [] {own_edges} in let cells := {cells} in ")
